@@ -142,8 +142,12 @@ pub fn describe(fd: RawFd) -> String {
     };
     let fl = unsafe { libc::syscall(libc::SYS_fcntl, fd, libc::F_GETFL) };
     let fdfl = unsafe { libc::syscall(libc::SYS_fcntl, fd, libc::F_GETFD) };
+    // where the kernel says the descriptor points (numeric pid: /proc/self may be over-mounted)
+    let path = std::fs::read_link(format!("/proc/{}/fd/{fd}", std::process::id()))
+        .map(|p| crate::fmt::hex(p.as_os_str().as_encoded_bytes()))
+        .unwrap_or_else(|_| "x".into());
     format!(
-        "fd={fd} dev={} ino={} kind={kind} mnt={} fstype={} fl={fl} cloexec={}",
+        "fd={fd} dev={} ino={} kind={kind} mnt={} fstype={} fl={fl} cloexec={} path={path}",
         st.st_dev,
         st.st_ino,
         statx_mnt(fd).map(|m| m.to_string()).unwrap_or_else(|| "none".into()),
@@ -441,12 +445,14 @@ fn open_nofollow(path: &str) -> Option<OwnedFd> {
 pub enum Over {
     Tmpfs,
     Bind(&'static str),
+    /// a symlink with this body, bind-mounted (not followed) on top of the destination
+    LinkTo(&'static str),
 }
 
 /// Mount over `dst` itself (symlinks and magic-links are not followed).
 pub fn overmount(dst: &str, over: &Over) -> Result<(u64, u64), i32> {
     let d = open_nofollow(dst).ok_or(libc::ENOENT)?;
-    let dpath = cstr(&format!("/proc/self/fd/{}", d.as_raw_fd()));
+    let dpath = cstr(&format!("/proc/{}/fd/{}", std::process::id(), d.as_raw_fd()));
     let r = match over {
         Over::Tmpfs => unsafe {
             libc::mount(
@@ -457,9 +463,27 @@ pub fn overmount(dst: &str, over: &Over) -> Result<(u64, u64), i32> {
                 std::ptr::null(),
             )
         },
+        Over::LinkTo(body) => {
+            let scratch = format!("/verif/.cache/work/c06-link-{}", std::process::id());
+            let _ = std::fs::create_dir_all("/verif/.cache/work");
+            let _ = std::fs::remove_file(&scratch);
+            std::os::unix::fs::symlink(body, &scratch).map_err(|e| e.raw_os_error().unwrap_or(0))?;
+            let src = cstr(&scratch);
+            // open_tree(AT_FDCWD, link, OPEN_TREE_CLONE|OPEN_TREE_CLOEXEC|AT_SYMLINK_NOFOLLOW); move_mount(tree, "", AT_FDCWD, dst, F_EMPTY_PATH)
+            let tree = unsafe { libc::syscall(428, libc::AT_FDCWD, src.as_ptr(), 1u32 | libc::O_CLOEXEC as u32 | libc::AT_SYMLINK_NOFOLLOW as u32) };
+            if tree < 0 {
+                let _ = std::fs::remove_file(&scratch);
+                return Err(std::io::Error::last_os_error().raw_os_error().unwrap_or(0));
+            }
+            let r = unsafe {
+                libc::syscall(429, tree as i32, cstr("").as_ptr(), libc::AT_FDCWD, cstr(dst).as_ptr(), 4u32 /* MOVE_MOUNT_F_EMPTY_PATH */)
+            };
+            unsafe { libc::close(tree as i32) };
+            r as i32 // the scratch name stays: a mounted dentry cannot be unlinked (it lives in the namespace's /tmp)
+        }
         Over::Bind(src) => {
             let s = open_nofollow(src).ok_or(libc::ENOENT)?;
-            let spath = cstr(&format!("/proc/self/fd/{}", s.as_raw_fd()));
+            let spath = cstr(&format!("/proc/{}/fd/{}", std::process::id(), s.as_raw_fd()));
             unsafe {
                 libc::mount(
                     spath.as_ptr(),
@@ -496,6 +520,10 @@ pub fn overmount_candidates() -> Vec<(ProcfsBase, &'static str, &'static str, Ov
         (ProcfsBase::ProcSelf, "cwd", "/proc/self/cwd", Over::Bind("/etc/hostname")),
         (ProcfsBase::ProcSelf, "ns/mnt", "/proc/self/ns/mnt", Over::Bind("/proc/self/ns/uts")),
         (ProcfsBase::ProcThreadSelf, "status", "/proc/thread-self/status", Over::Bind("/etc/hostname")),
+        // symlinks of procfs replaced by symlinks into another process (only used alone: masks 4096, 8192, 16384)
+        (ProcfsBase::ProcRoot, "net", "/proc/net", Over::LinkTo("1")),
+        (ProcfsBase::ProcRoot, "self", "/proc/self", Over::LinkTo("1")),
+        (ProcfsBase::ProcRoot, "thread-self", "/proc/thread-self", Over::LinkTo("1/task/1")),
     ]
 }
 
@@ -544,10 +572,17 @@ pub fn suite_overmount(ctx: &mut Ctx, masks: &[u32]) {
                     Err(_) => continue,
                 };
                 // look up every candidate, plus symlinks whose *target* may be over-mounted
-                let extra: [(ProcfsBase, &str, &str); 3] = [
+                let extra: [(ProcfsBase, &str, &str); 9] = [
                     (ProcfsBase::ProcRoot, "mounts", "/proc/mounts"),
                     (ProcfsBase::ProcRoot, "self/mounts", "/proc/self/mounts"),
                     (ProcfsBase::ProcRoot, "thread-self/status", "/proc/thread-self/status"),
+                    // lookups *through* a procfs symlink that may have been replaced
+                    (ProcfsBase::ProcRoot, "net/stat", "/proc/net/stat"),
+                    (ProcfsBase::ProcRoot, "net/status", "/proc/net/status"),
+                    (ProcfsBase::ProcSelf, "status", "/proc/self/status"),
+                    (ProcfsBase::ProcSelf, "stat", "/proc/self/stat"),
+                    (ProcfsBase::ProcThreadSelf, "stat", "/proc/thread-self/stat"),
+                    (ProcfsBase::ProcThreadSelf, "comm", "/proc/thread-self/comm"),
                 ];
                 let targets: Vec<(Option<usize>, ProcfsBase, &str, &str)> = cands
                     .iter()
@@ -592,12 +627,13 @@ pub fn suite_overmount(ctx: &mut Ctx, masks: &[u32]) {
             let c = cstr(cands[*i].2);
             // the mount sits on top of dst itself
             if let Some(fd) = open_nofollow(cands[*i].2) {
-                let p = cstr(&format!("/proc/self/fd/{}", fd.as_raw_fd()));
+                let p = cstr(&format!("/proc/{}/fd/{}", std::process::id(), fd.as_raw_fd()));
                 unsafe { libc::umount2(p.as_ptr(), libc::MNT_DETACH) };
             } else {
                 unsafe { libc::umount2(c.as_ptr(), libc::MNT_DETACH) };
             }
         }
+        let _ = std::fs::remove_file(format!("/verif/.cache/work/c06-link-{}", std::process::id()));
     }
     let _ = Path::new("/");
 }
